@@ -97,7 +97,7 @@ def run(ctx):
     sub = [p for k, p in enumerate(programs) if k % 4 == 0 or "thermodynamic_temperature" in p.rust_fn("x") or "bs_kgh" in p.rust_fn("x")]
     stats2, mv2, rv2 = C01.compare(ctx, t, sub, [f for f in FEATURES if f != "autoconvert"], False, True, "c02noac",
                                    "C02 (autoconvert disabled): accept/reject of a program")
-    nsat = PG.check_saturating(ctx, "c02sat", "C02: temperature points cannot be added or subtracted in any form (num_traits::Saturating included); other quantities can")
+    nsat = PG.check_saturating(ctx, "satprobe", "C02: temperature points cannot be added or subtracted in any form (num_traits::Saturating included); other quantities can")
     cov = ctx.coverage
     cov["saturating_programs_integer_storage"] = nsat
     cov["programs"] = len(programs) + len(sub)
